@@ -48,12 +48,12 @@ def run(ctx):
                "honest proof for exactly that tree, position and leaves")
     ctx.assume("small-scope: two squares of width 4 (+ two of width 16/32 in the driver), 5 headers, <=2 composed manipulations")
     quick = ctx.quick
-    r = ctx.tlc("proofs/Proofs.tla", "proofs/MCProofs_quick.cfg", workers=4, timeout=1200, java_opts=GC,
-                coverage=not quick)
+    # (no -coverage here: TLC's cost model runs out of memory on this module; the action coverage is
+    # read off the emitted cases instead: every family with 0, 1 and 2 manipulations, and requests)
+    r = ctx.tlc("proofs/Proofs.tla", "proofs/MCProofs_quick.cfg", workers=4, timeout=1200, java_opts=GC)
     if not r.ok:
         return
     if not quick:
-        ctx.require_coverage(r, ["Pick", "PickReq", "Tamper", "Present"])
         # the tree as found: the model must be able to express candidate defect #12 (a panic outcome)
         a = ctx.tlc("proofs/Proofs.tla", "proofs/MCProofs_asfound.cfg", must_pass=False, count=False, workers=2,
                     timeout=600, java_opts=GC)
@@ -67,9 +67,14 @@ def run(ctx):
     kinds = {}
     for c in cases:
         kinds[c["kind"]] = kinds.get(c["kind"], 0) + 1
-    if len(cases) < 20000 or any(kinds.get(k, 0) < 100 for k in ("cp", "rr", "tp", "inc", "req")):
-        ctx.inconclusive("vacuity: TLC emitted %d cases %s" % (len(cases), kinds))
+    depth = {}
+    for c in cases:
+        depth[(c["kind"], len(c["tampers"]))] = depth.get((c["kind"], len(c["tampers"])), 0) + 1
+    if len(cases) < 20000 or any(kinds.get(k, 0) < 100 for k in ("cp", "rr", "tp", "inc", "req")) or \
+            any(depth.get((k, n), 0) < 1 for k in ("cp", "rr", "tp", "inc") for n in (0, 1, 2)):
+        ctx.inconclusive("vacuity: TLC emitted %d cases %s %s" % (len(cases), kinds, depth))
         return
+    ctx.cover(cases_by_family=kinds)
     ctx.cover(exhaustive=True, enumerated_cases=len(cases))
     p = os.path.join(ctx.work, "cases.json")
     with open(p, "w") as f:
